@@ -39,8 +39,6 @@ impl Rng {
     }
 }
 
-const STATIC_STREAMS: [(&str, u64); 4] = [("/a/b/t", 70), ("/k", 10), ("/m", 4096), ("/z", 200)];
-
 fn build_file(ver: u64) -> Cf {
     let v = if ver == 3 { cfb::Version::V3 } else { cfb::Version::V4 };
     let mut cf = cfb::CompoundFile::create_with_version(v, SharedBuf::new(Vec::new())).unwrap();
